@@ -80,11 +80,3 @@ func VPErr(i int) error {
 	}
 	return errStylingOpsUsedInDrawingMode
 }
-
-// VPNArgs is the operand count the encoder associates with a drawing verb (-1: not a verb).
-func VPNArgs(op byte) int {
-	if op == 0 || (drawOps[op].opcodeBase == 0 && op != 'L') {
-		return -1
-	}
-	return int(drawOps[op].nArgs)
-}
